@@ -19,6 +19,7 @@ package main
 //   krestart PUB                   reopen database + new WalletManager with PUB    ok | err:pub
 //   kdecrypt W PASS                harness decrypts the stored blobs itself        ok | err:pass
 //   kstate                         volatile unlock state of every keystore (hook VerifSecState)
+//   klocked                        W:L (locked, nothing cached) | W:U per keystore
 //   kkeys                          (bucket, key name) set of the keystore bucket tree
 //   kscan                          raw scan of database KV + files + exports + errors for secrets: clean | LEAK:...
 //   sign W PASS FLAG T             SignRawTx on a copy of defined transaction T    ok | err:<class>   (+ !<failed oracle>)
@@ -208,6 +209,8 @@ func (x *secExec) Exec(a []string) string {
 		return x.decrypt(a[1], a[2])
 	case a[0] == "kstate" && len(a) == 1:
 		return x.state()
+	case a[0] == "klocked" && len(a) == 1:
+		return x.locked()
 	case a[0] == "kkeys" && len(a) == 1:
 		return x.keys()
 	case a[0] == "kscan" && len(a) == 1:
@@ -513,13 +516,13 @@ func (x *secExec) state() string {
 		if s.Unlocked {
 			lk = "U"
 		}
-		mk := "z"
+		// "v": the buffer holds the VALID master private key; "-": zeroed, or the residue of a refused
+		// derivation (scrypt of a wrong passphrase: not a secret, never read again)
+		mk := "-"
 		if !allZero(s.MasterPrivKey) {
 			d := sha256.Sum256(s.MasterPrivKey)
 			if bytes.Equal(d[:], s.MasterPrivDigest) {
 				mk = "v"
-			} else {
-				mk = "g"
 			}
 		}
 		b2i := func(b bool) int {
@@ -534,15 +537,41 @@ func (x *secExec) state() string {
 	return joinSorted(items)
 }
 
+func secInfoLocked(s keystore.VerifSecInfo) bool {
+	validMk := false
+	if !allZero(s.MasterPrivKey) {
+		d := sha256.Sum256(s.MasterPrivKey)
+		validMk = bytes.Equal(d[:], s.MasterPrivDigest)
+	}
+	return !(s.Unlocked || !allZero(s.HashedPrivPass) || validMk || !allZero(s.CryptoKeyPriv) ||
+		s.HasAcctKeyPriv || s.HasExternalBranch || s.HasInternalBranch || len(s.AddrsWithPrivKey) != 0)
+}
+
 // lockedAll: every keystore is back in the locked state with nothing cached.
 func (x *secExec) lockedAll() bool {
 	for _, s := range x.e.wm.VerifKeystoreManager().VerifSecState() {
-		if s.Unlocked || !allZero(s.HashedPrivPass) || !allZero(s.MasterPrivKey) || !allZero(s.CryptoKeyPriv) ||
-			s.HasAcctKeyPriv || s.HasExternalBranch || s.HasInternalBranch || len(s.AddrsWithPrivKey) != 0 {
+		if !secInfoLocked(s) {
 			return false
 		}
 	}
 	return true
+}
+
+// locked: "W:L" (locked, no key material cached) / "W:U" per keystore.
+func (x *secExec) locked() string {
+	var items []string
+	for _, s := range x.e.wm.VerifKeystoreManager().VerifSecState() {
+		name, ok := x.e.walletRev[s.Name]
+		if !ok {
+			name = "?" + s.Name
+		}
+		if secInfoLocked(s) {
+			items = append(items, name+":L")
+		} else {
+			items = append(items, name+":U")
+		}
+	}
+	return joinSorted(items)
 }
 
 // ---------------------------------------------------------------- raw database access
